@@ -21,6 +21,7 @@ pub mod c14;
 pub mod c15;
 pub mod c16;
 pub mod c17;
+pub mod c18;
 pub mod c19;
 pub mod normfam;
 pub mod c20;
@@ -44,6 +45,7 @@ pub fn run(prop: &str, cfg: &Cfg) -> Outcome {
         "C15" => c15::run(cfg),
         "C16" => c16::run(cfg),
         "C17" => c17::run(cfg),
+        "C18" => c18::run(cfg),
         "C19" => c19::run(cfg),
         "C20" => c20::run(cfg),
         _ => {
@@ -72,6 +74,7 @@ pub fn replay(prop: &str, cfg: &Cfg, case: &Value) -> Vec<Violation> {
         "C15" => c15::replay(cfg, case),
         "C16" => c16::replay(cfg, case),
         "C17" => c17::replay(cfg, case),
+        "C18" => c18::replay(cfg, case),
         "C19" => c19::replay(cfg, case),
         "C20" => c20::replay(cfg, case),
         _ => {
